@@ -418,6 +418,15 @@ struct DDMap : Profile {
                         ctx.fail("dup-accepted", "dup-accepted:name-in-use", strf("Hdupdd(%u/%u <- %u/%u) succeeds although %u/%u exists", dst.first, dst.second, src.first, src.second, dst.first, dst.second));
                     ctx.probe("dup-onto-existing-refused");
                 }
+                else if (it == s.m.end() && !s.m.count(dst) && !lib_tag(src.first)) {
+                    // there is nothing to duplicate: refused, and the new name does not appear (the map checks that follow
+                    // every step would see a descriptor left behind)
+                    if (Hdupdd(fid, dst.first, dst.second, src.first, src.second) != FAIL)
+                        ctx.fail("dup-accepted", "dup-accepted:no-source", strf("Hdupdd(%u/%u <- %u/%u) succeeds although %u/%u does not exist", dst.first, dst.second, src.first, src.second, src.first, src.second));
+                    if (Hexist(fid, dst.first, dst.second) != FAIL)
+                        ctx.fail("exist-mismatch", "exist-mismatch:after-refused-dup", strf("the refused Hdupdd(%u/%u <- %u/%u) left %u/%u in the directory", dst.first, dst.second, src.first, src.second, dst.first, dst.second));
+                    ctx.probe("dup-without-source-refused");
+                }
                 else if (it == s.m.end() || it->second.special || s.m.count(dst))
                     done = false;
                 else {
